@@ -155,8 +155,26 @@ let cmd_expr () =
         | Some (Some v) -> string_of_z v | Some None -> "FAIL" | None -> "UNSPEC" in
       Printf.printf "%s\t%s\t%s\n" (string_of_str (show_expr e)) v sp) (read_lines ())
 
+(* ---- build: builder::build_str.  stdin: hex of the source per line; stdout: canonical observation *)
+let hex_of_string t = String.concat "" (List.init (String.length t) (fun i -> Printf.sprintf "%02x" (Char.code t.[i])))
+let observe_build (r : build_result res) =
+  match r with
+  | Panic -> "PANIC" | OutOfFuel -> "FUEL"
+  | Err None -> "ERR -" | Err (Some l) -> "ERR " ^ string_of_n l
+  | Ok b ->
+    let dash t = if t = "" then "-" else t in
+    Printf.sprintf "OK %s %s %s %s %s %s %s" (dash (hex_of_bytes b.b_code)) (dash (hex_of_bytes b.b_eeprom))
+      (string_of_n b.b_flash) (string_of_n b.b_eeprom_size) (string_of_n b.b_ram) (string_of_n b.b_ram_filling)
+      (dash (String.concat "," (List.map (fun m -> hex_of_string (string_of_str m)) b.b_messages)))
+let build_fuel = nat_of_int 3000
+let cmd_build () =
+  List.iter (fun line ->
+    let text = unhex_string (String.trim line) in
+    print_endline (observe_build (build_str build_fuel (str_of_string text)))) (read_lines ())
+
 let () =
   match Sys.argv.(1) with
+  | "build" -> cmd_build ()
   | "expr" -> cmd_expr ()
   | "hex" -> cmd_hex ()
   | "enc" -> cmd_enc ()
